@@ -180,13 +180,17 @@ prop("C18", ["prims.go", "c18.go"],
 
 # ------------------------------------------------------------------------------------------------ C04
 prop("C04", ["prims.go", "c04.go"],
-     [run("kill", "harnessC04", ["connected", "forced", "graceful", "kill-returned"],
-          quick={"bound": "gRPC, RunnerFunc launch, connected client, one Kill; plugin behaviour in {cooperative after symbolic delay d, answers but never exits, frozen}; canonical schedule"})],
-     [PROC, BUFIO, CTX, GRPCSEAM, "a unary gRPC call returns when answered, when its context is done, or with Unavailable when the connection is dead - and blocks otherwise"],
-     ["grpc.Dial", "generated gRPC clients", "bufio", "context", "process"],
-     "net/rpc, reattach and exec.Cmd launch; repeated/concurrent Kill and CleanupClients (future work)",
-     text="Bounded symbolic model checking of the real chain NewClient -> Client() -> Start -> newGRPCClient -> Kill -> GRPCClient.Close over the plugin's shutdown behaviour with a symbolic delay: Kill returns, within grace period + shutdown-request duration on the symbolic clock; a plugin that exits inside the grace period is not force-killed, one that does not is.",
-     note="Bound: gRPC, custom runner, one Kill, three behaviour classes. " + ENGINE)
+     [run("kill-seam", "harnessC04", ["connected", "forced", "graceful", "kill-returned"],
+          quick={"bound": "gRPC over the generated-client seam, RunnerFunc launch, connected client, one Kill; plugin behaviour in {cooperative after symbolic delay d, answers but never exits, frozen}"}),
+      run("kill-world", "harnessC04world", ["connected", "graceful", "forced", "already-dead", "repeated", "overlapping-kill"], files=WORLD,
+          quick={"bound": "host x plugin composed, net/rpc and gRPC, both launch methods; plugin shutdown behaviour in {exits at once, exits after a symbolic clean-up time d <= 10 s, acknowledges but never exits, frozen (SIGSTOP), already crashed}; call pattern: one Kill, a repeated Kill, and a second Kill from another goroutine at a symbolic instant in [first Kill, +6 s]"}),
+      run("cleanup-clients", "harnessC04cleanup", ["cleaned-up"], files=WORLD,
+          quick={"bound": "CleanupClients over two managed clients (protocols free): the second healthy, ignoring the request, or never started"})],
+     [PROC, BUFIO, CTX, GRPCSEAM, "a unary gRPC call returns when answered, when its context is done, or with Unavailable when the connection is dead - and blocks otherwise", "yamux keep-alive: a net/rpc call to a peer that stopped answering fails after at most 40 s (default yamux configuration)"] + WORLD_ASSUME,
+     WORLD_STUBS,
+     "reattached clients (C15); more than two overlapping Kill calls; schedules of overlapping Kills other than those induced by their start instants (canonical scheduler with symbolic time)",
+     text="Bounded symbolic model checking of the real Kill / CleanupClients / Client / RPCClient.Close / GRPCClient.Close / controller Shutdown / Control.Quit / CmdRunner over the plugin's shutdown behaviour with symbolic delays, for both protocols and launch methods and for single, repeated and overlapping calls: Kill returns within a bound on the symbolic clock; afterwards the process is dead and reported exited; a plugin that exits inside the grace period is not force-killed, one that does not is; no panic.",
+     note="Bound: one plugin per client, the behaviour classes and call patterns listed in the evidence. Overlap is explored through the symbolic start instant of the second Kill. " + ENGINE)
 
 # ------------------------------------------------------------------------------------------------ C09
 prop("C09", ["prims.go", "c09a.go"],
